@@ -69,6 +69,9 @@ func publicMain(args []string) error {
 			if strings.HasPrefix(name, "tags.") || name == "tags" {
 				return "tags"
 			}
+			if strings.HasPrefix(name, "lbl.") || name == "lbl" {
+				return "lbl"
+			}
 			return name
 		}
 		units := map[string]bool{}
@@ -122,7 +125,7 @@ func publicMain(args []string) error {
 				}
 				for _, s := range c.Syms { // dotted symbols that are not toggled (more than 6 symbols): public
 					n := qrun.Sym(s)
-					if strings.Contains(n, ".") && !strings.HasPrefix(n, "tags.") && !non[n] {
+					if strings.Contains(n, ".") && !strings.HasPrefix(n, "tags.") && !strings.HasPrefix(n, "lbl.") && !non[n] {
 						st.Publish(n)
 					}
 				}
